@@ -81,7 +81,7 @@ theorem compileFn_shape (env : Env) (st : St) (g : AFn) :
 
 theorem stepU {env : Env} {file : AFile} {G : List String} {P : Prog} {F : GFile} (hl : Link env file G P F) {n : Nat}
     (ha : SimA env file G P F n) : SimU env file G P F (n + 1) := by
-  intro g hg hgG η vs gvs w gw hfeq hargs hw
+  intro g hg hgG η vs gvs w gw hfeq hdeq hargs hw
   rw [Sem.apply]; simp only [hl.fnSrc g hg hgG, AFn.toFn]
   obtain ⟨st, hfind, hlocal⟩ := hl.fnGo g hg hgG
   simp only [localOK, srcLocalOK, goLocalOK, Bool.and_eq_true, Bool.not_eq_true', compileFn_shape] at hlocal
@@ -156,7 +156,7 @@ theorem stepU {env : Env} {file : AFile} {G : List String} {P : Prog} {F : GFile
   have hsim := ha (.assign retName) st1 g.body η (paramCtx g) [] _ w env1 gw Bad hfrag hrel1 (KRel.nil _) hw (hS ▸ hinv1) htgt1
     (by simp [Bad]) ⟨hfeq, fun e he => by
       simp only [Bad, List.mem_cons, List.mem_append]
-      exact Or.inr (Or.inr (List.mem_map_of_mem (f := fun e => vn e.1) (hfeq ▸ he)))⟩
+      exact Or.inr (Or.inr (List.mem_map_of_mem (f := fun e => vn e.1) (hfeq ▸ he))), hdeq⟩
     (fun c hc => by simp only [Bad, List.mem_cons, List.mem_append]; exact Or.inr (Or.inl hc))
   rw [hS, hret'] at hsim
   have hvd : StmtS F (goBind g.params gvs) gw (.varDecl (gid retName) (goTy g.ret) none) (.ok (env1, .normal) gw) :=
